@@ -363,6 +363,9 @@ func cmdReplay(args []string) int {
 		return 2
 	}
 	got, ok := res[0]
+	if os.Getenv("SYMGO_SHOW") != "" {
+		fmt.Println(text)
+	}
 	timedOut := !ok && (strings.Contains(text, "test timed out") || strings.Contains(text, "all goroutines are asleep"))
 	fmt.Printf("harness %s expects %q, native result: %q\n", run.Harness, run.Expect, got)
 	if matchExpect(run.Expect, got, timedOut) {
